@@ -3,92 +3,25 @@
 From Coq Require Import List Arith Bool Lia Reals Lra.
 From Compute Require Import Base.Ops Base.ListMat Model.Reduce Model.MatMul Model.Subst Model.Cholesky Model.Solve
   Spec.Factor Spec.Solve Proofs.C05 Proofs.LinAlgBase Proofs.C11_Subst Proofs.C11_Chol Proofs.C01_Layout.
+From Compute Require Export Proofs.C11_Pred.
 Import ListNotations.
 Local Open Scope R_scope.
-
-Lemma fmax_RO x y : fmax RO x y = Rmax x y.
-Proof.
-  unfold fmax, is_nan. cbn [eqb RO ltb].
-  rewrite (proj2 (Reqb_true x x) eq_refl), (proj2 (Reqb_true y y) eq_refl). cbn [negb].
-  unfold Rmax. destruct (Rle_dec x y) as [H|H].
-  - destruct (Rltb x y) eqn:E; auto. apply Rltb_false in E. lra.
-  - destruct (Rltb x y) eqn:E; auto. apply Rltb_true in E. lra.
-Qed.
-
-(** the tolerance of the repaired [is_symmetric]: |x - y| <= eps . max(|x|, |y|) *)
-Definition sym_tol (x y : R) : R := eps RO * Rmax (Rabs x) (Rabs y).
-
-Lemma sym_tol_nonneg x y : 0 <= sym_tol x y.
-Proof.
-  unfold sym_tol. apply Rmult_le_pos; [pose proof eps_pos; lra|].
-  apply Rle_trans with (Rabs x); [apply Rabs_pos | apply Rmax_l].
-Qed.
-
-Lemma sym_entry_ok_R x y : sym_entry_ok RO x y = true <-> Rabs (x - y) <= sym_tol x y.
-Proof.
-  unfold sym_entry_ok, sym_tol. rewrite fmax_RO. cbn [ltb mul abs sub RO].
-  rewrite negb_true_iff. apply Rltb_false.
-Qed.
-
-Lemma is_symmetric_rel_rows_true M n :
-  is_symmetric_rel_rows RO M n = true <->
-  forall i j, (i <= j)%nat -> (j < n)%nat -> Rabs (ent 0 M i j - ent 0 M j i) <= sym_tol (ent 0 M i j) (ent 0 M j i).
-Proof.
-  unfold is_symmetric_rel_rows. split.
-  - intros H i j Hij Hj. rewrite forallb_forall in H. specialize (H i ltac:(apply in_seq; lia)).
-    rewrite forallb_forall in H. specialize (H j ltac:(apply in_seq; lia)).
-    apply sym_entry_ok_R. exact H.
-  - intros H. apply forallb_forall. intros i Hi. apply in_seq in Hi.
-    apply forallb_forall. intros j Hj. apply in_seq in Hj.
-    apply sym_entry_ok_R. apply H; lia.
-Qed.
-
-Lemma is_symmetric_rel_rows_exact M n :
-  (forall i j, (i < n)%nat -> (j < n)%nat -> ent 0 M i j = ent 0 M j i) -> is_symmetric_rel_rows RO M n = true.
-Proof.
-  intros H. apply is_symmetric_rel_rows_true. intros i j Hij Hj. rewrite (H i j) by lia.
-  replace (ent 0 M j i - ent 0 M j i) with 0 by lra. rewrite Rabs_R0. apply sym_tol_nonneg.
-Qed.
-
-Lemma sym_tol_sym x y : sym_tol x y = sym_tol y x.
-Proof. unfold sym_tol. rewrite Rmax_comm. reflexivity. Qed.
-
-Lemma is_symmetric_rel_rows_far M n i j :
-  (i < n)%nat -> (j < n)%nat -> sym_tol (ent 0 M i j) (ent 0 M j i) < Rabs (ent 0 M i j - ent 0 M j i) ->
-  is_symmetric_rel_rows RO M n = false.
-Proof.
-  intros Hi Hj Hfar. destruct (is_symmetric_rel_rows RO M n) eqn:E; auto. exfalso.
-  rewrite is_symmetric_rel_rows_true in E.
-  destruct (Nat.le_gt_cases i j) as [Hij|Hij].
-  - specialize (E i j Hij Hj). lra.
-  - specialize (E j i ltac:(lia) Hi). rewrite Rabs_minus_sym, sym_tol_sym in E. lra.
-Qed.
-
-Lemma diag_positive_rows_true M n :
-  diag_positive_rows RO M n = true <-> forall i, (i < n)%nat -> 0 < ent 0 M i i.
-Proof.
-  unfold diag_positive_rows. split.
-  - intros H i Hi. rewrite forallb_forall in H. specialize (H i ltac:(apply in_seq; lia)).
-    cbn [leb zero RO] in H. apply negb_true_iff, Rleb_false in H. exact H.
-  - intros H. apply forallb_forall. intros i Hi. apply in_seq in Hi.
-    cbn [leb zero RO]. apply negb_true_iff, Rleb_false. apply H. lia.
-Qed.
 
 (** *** flat level *)
 Lemma pd_pred_far a n i j :
   (n * n)%nat = length a -> (i < n)%nat -> (j < n)%nat ->
   sym_tol (getm a n i j) (getm a n j i) < Rabs (getm a n i j - getm a n j i) ->
-  is_pd_pred RO a = Some false.
+  is_positive_definite RO a = Some false.
 Proof.
-  intros Hn Hi Hj Hfar. unfold is_pd_pred. rewrite <- Hn, is_square_sq. cbn [bind].
-  rewrite (is_symmetric_rel_rows_far _ n i j Hi Hj); [reflexivity|].
+  intros Hn Hi Hj Hfar. unfold is_positive_definite. rewrite <- Hn, is_square_sq. cbn [bind].
+  rewrite (is_symmetric_rows_far _ n i j Hi Hj); [reflexivity|].
   rewrite !ent_unflatten by auto. exact Hfar.
 Qed.
 
 Lemma pd_pred_nonpositive_diag a n i :
-  (n * n)%nat = length a -> (i < n)%nat -> getm a n i i <= 0 -> is_pd_pred RO a = Some false.
+  (n * n)%nat = length a -> (i < n)%nat -> getm a n i i <= 0 -> is_positive_definite RO a = Some false.
 Proof.
-  intros Hn Hi Hd. unfold is_pd_pred. rewrite <- Hn, is_square_sq. cbn [bind].
+  intros Hn Hi Hd. unfold is_positive_definite. rewrite <- Hn, is_square_sq. cbn [bind].
   destruct (diag_positive_rows RO (unflatten a n n) n) eqn:E.
   - rewrite diag_positive_rows_true in E. specialize (E i Hi). rewrite ent_unflatten in E by auto.
     unfold getm in Hd. lra.
@@ -97,10 +30,10 @@ Qed.
 
 Lemma pd_pred_sym_posdiag a n :
   (n * n)%nat = length a -> symmetric a n -> (forall i, (i < n)%nat -> 0 < getm a n i i) ->
-  is_pd_pred RO a = Some true.
+  is_positive_definite RO a = Some true.
 Proof.
-  intros Hn Hsym Hd. unfold is_pd_pred. rewrite <- Hn, is_square_sq. cbn [bind].
-  rewrite is_symmetric_rel_rows_exact.
+  intros Hn Hsym Hd. unfold is_positive_definite. rewrite <- Hn, is_square_sq. cbn [bind].
+  rewrite is_symmetric_rows_exact.
   - rewrite (proj2 (diag_positive_rows_true _ n)); [reflexivity|].
     intros i Hi. rewrite ent_unflatten by auto. apply (Hd i Hi).
   - intros i j Hi Hj. rewrite !ent_unflatten by auto. apply (Hsym i j); auto.
@@ -108,14 +41,14 @@ Qed.
 
 (** what the predicate guarantees when it answers true *)
 Lemma pd_pred_true a n :
-  (n * n)%nat = length a -> is_pd_pred RO a = Some true ->
+  (n * n)%nat = length a -> is_positive_definite RO a = Some true ->
   (forall i j, (i < n)%nat -> (j < n)%nat ->
      Rabs (getm a n i j - getm a n j i) <= sym_tol (getm a n i j) (getm a n j i)) /\
   (forall i, (i < n)%nat -> 0 < getm a n i i).
 Proof.
-  intros Hn H. unfold is_pd_pred in H. rewrite <- Hn, is_square_sq in H. cbn [bind] in H.
+  intros Hn H. unfold is_positive_definite in H. rewrite <- Hn, is_square_sq in H. cbn [bind] in H.
   inversion H as [H1]. apply andb_true_iff in H1. destruct H1 as [Hs Hd].
-  rewrite is_symmetric_rel_rows_true in Hs. rewrite diag_positive_rows_true in Hd. split.
+  rewrite is_symmetric_rows_true in Hs. rewrite diag_positive_rows_true in Hd. split.
   - intros i j Hi Hj. destruct (Nat.le_gt_cases i j) as [Hij|Hij].
     + specialize (Hs i j Hij Hj). rewrite !ent_unflatten in Hs by auto. exact Hs.
     + specialize (Hs j i ltac:(lia) Hi). rewrite !ent_unflatten in Hs by auto.
@@ -132,7 +65,7 @@ Definition decisively_symmetric_or_not (a : list R) (n : nat) : Prop :=
 
 Lemma decisive_routing a n :
   (n * n)%nat = length a -> decisively_symmetric_or_not a n ->
-  is_pd_pred RO a = Some true -> symmetric a n.
+  is_positive_definite RO a = Some true -> symmetric a n.
 Proof.
   intros Hn [Hs|(i & j & Hi & Hj & Hfar)] Hpd; auto.
   rewrite (pd_pred_far a n i j Hn Hi Hj Hfar) in Hpd. discriminate.
